@@ -7,6 +7,12 @@ FIELDS = dict(k="", kids=[], s=[], rng=[], ucl=[], ic=False, inv=False, lab="", 
               rule=0, args=[], want=[], key="x", op="", arg=0, g=0, err=False, xl=False)
 
 
+def PCT(n):
+    """user code is copied into the generated file verbatim: a third of the blocks carry text that a printf-style
+    re-formatting, a template expansion or an escaping step would change"""
+    return " /* 100%d %s %% {{.}} \\n */" if n["blk"] % 3 == 0 else ""
+
+
 class Gram:
     """One test group: rules[i] is the root node id (1-based) of rule i+1."""
 
@@ -227,11 +233,11 @@ class Gram:
         if k == "choice":
             return par(" / ".join(self.render(c, 1) for c in n["kids"]))
         if k == "action":
-            return par(self.render(n["kids"][0], 2) + " { return act(%s, %d, []any{%s}) }" % (self.recv, n["blk"], a))
+            return par(self.render(n["kids"][0], 2) + " { return act(%s, %d, []any{%s}) }" % (self.recv, n["blk"], a + PCT(n)))
         if k == "state":
-            return "#{ return st(%s, %d, []any{%s}) }" % (self.recv, n["blk"], a)
+            return "#{ return st(%s, %d, []any{%s}) }" % (self.recv, n["blk"], a + PCT(n))
         if k in ("andcode", "notcode"):
-            return ("&" if k == "andcode" else "!") + "{ return pr(%s, %d, []any{%s}) }" % (self.recv, n["blk"], a)
+            return ("&" if k == "andcode" else "!") + "{ return pr(%s, %d, []any{%s}) }" % (self.recv, n["blk"], a + PCT(n))
         if k == "label":
             return par(n["lab"] + ":" + self.render(n["kids"][0], 4))
         if k in ("and", "not"):
